@@ -10,7 +10,7 @@
    that arim's Python code computes what the model says (strings, dictionaries,
    numpy transposition, object identity of the paths shared between views). *)
 From Coq Require Import Arith List Bool ZArith Permutation Sorting.Sorted.
-From Arim Require Import Model.Views Proofs.ViewsProofs.
+From Arim Require Import Model.Views Proofs.ViewsProofs Model.ViewsN Proofs.ViewsNProofs.
 Import ListNotations.
 
 (* ---- names --------------------------------------------------------- *)
@@ -269,3 +269,456 @@ Example reverse_immersion_LT :
       mkIface PProbe None None None (Some true) None ]
     [Block; Block; Couplant] [T; L; L] [L; T] None).
 Proof. eexists. eexists. split; [vm_compute; reflexivity|]. split; vm_compute; reflexivity. Qed.
+
+(* ==================================================================== *)
+(* SECOND PART — the glue around the core (Model/ViewsN.v, Proofs/ViewsNProofs.v):
+   names as the real Python strings, the views dictionary, the examination objects
+   accepted by the two public make_views, and the wiring rule for ANY number of wall
+   reflections (the code stops at 2 with NotImplementedError; make_paths_gen is the same
+   rule without the limit and is proved equal to the code's make_paths on 0..2).
+   A str is the list of its characters (`pystr`); `word_str w` is the name of the path
+   w, `view_str (X, Y)` the dictionary key f"{X}-{Y}". *)
+(* ==================================================================== *)
+
+(* ---- names as strings ---------------------------------------------- *)
+(* reciprocal_viewname on the key of a view is the key of the reciprocal view:
+   split("-"), [::-1] and "+" do on the string what recip does on the pair *)
+Theorem reciprocal_viewname_on_view_names : forall v,
+  reciprocal_viewname_str (view_str v) = inl (view_str (recip v)).
+Proof. exact reciprocal_str_view. Qed.
+
+(* on ANY string: it returns iff the string has exactly one "-" (otherwise the tuple
+   unpacking raises ValueError) *)
+Theorem reciprocal_viewname_defined_iff : forall s,
+  ((exists t, reciprocal_viewname_str s = inl t) <-> count_dash s = 1) /\
+  (count_dash s <> 1 -> reciprocal_viewname_str s = inr ErrValue).
+Proof. intros s. split; [exact (reciprocal_str_defined s) | exact (reciprocal_str_error s)]. Qed.
+
+(* ... and then it is an involution and swaps the two reversed pieces, whatever the
+   characters of the path names are (no_dash a: "-" does not occur in a) *)
+Theorem reciprocal_viewname_any_string : forall s t, reciprocal_viewname_str s = inl t ->
+  reciprocal_viewname_str t = inl s /\
+  exists a b, s = join_dash a b /\ no_dash a /\ no_dash b /\ t = join_dash (rev b) (rev a).
+Proof. intros s t H. split; [exact (reciprocal_str_invol s t H) | exact (reciprocal_str_spec s t H)]. Qed.
+
+(* the dictionary key determines the view name (no two views share a key) and
+   split("-") reads the two path names back *)
+Theorem view_key_injective : forall u v,
+  (view_str u = view_str v -> u = v) /\
+  split_dash (view_str v) = [word_str (fst v); word_str (snd v)].
+Proof. intros u v. split; [exact (view_str_inj u v) | exact (view_str_split v)]. Qed.
+
+(* Mode.key() and parse_enum_constant / mode_dict are inverse on path names; only the
+   letters L and T parse *)
+Theorem path_name_letters_roundtrip : forall w s,
+  parse_word (word_str w) = inl w /\ (parse_word s = inl w -> s = word_str w) /\
+  length (word_str w) = length w /\ word_str (rev w) = rev (word_str w).
+Proof.
+  intros w s. split; [exact (parse_word_str w)|]. split; [exact (parse_word_some s w)|].
+  split; [exact (word_str_length w) | exact (word_str_rev w)].
+Qed.
+
+(* default_viewname_order evaluated on the real strings and compared the way Python
+   compares tuples (ints, then str by code point) is the model's view_cmp, hence (by
+   key_order_is_documented) the documented order *)
+Theorem python_key_is_model_key : forall a b,
+  sview_cmp (word_str (fst a), word_str (snd a)) (word_str (fst b), word_str (snd b)) = view_cmp a b.
+Proof. exact sview_cmp_view. Qed.
+
+(* on ARBITRARY strings the key comparison is a total order on the pairs (tx, rx):
+   equal keys only for equal pairs, antisymmetric, transitive - so sorted() by it has
+   exactly one possible result on duplicate-free input, whatever the path names are *)
+Theorem python_key_total_order : forall a b c : pystr * pystr,
+  (sview_cmp a b = Eq <-> a = b) /\ sview_cmp b a = CompOpp (sview_cmp a b) /\
+  (sview_cmp a b = Lt -> sview_cmp b c = Lt -> sview_cmp a c = Lt).
+Proof.
+  intros a b c. split; [exact (gc_eq _ good_sview a b)|].
+  split; [exact (gc_sym _ good_sview a b) | exact (gc_trans _ good_sview a b c)].
+Qed.
+
+(* ---- the views dictionary ------------------------------------------ *)
+(* make_views_from_paths with its OrderedDict: when the keys of paths_dict are distinct
+   (a dict) no assignment views[view_name] = ... overwrites an earlier one: the
+   dictionary has exactly one entry per view name, in the order of make_viewnames, keyed
+   by f"{tx}-{rx}" *)
+Theorem views_dict_no_collision : forall paths uo, NoDup (map fst paths) ->
+  make_views_from_paths_dict paths uo =
+    match make_views_from_paths paths uo with
+    | inl vs => inl (keyed vs)
+    | inr e => inr e
+    end.
+Proof. exact views_dict_spec. Qed.
+
+(* the premise holds for the paths of every configuration *)
+Theorem views_dict_configs : forall s r uo paths, make_paths s r = inl paths ->
+  make_views_from_paths_dict paths uo =
+    match make_views_from_paths paths uo with inl vs => inl (keyed vs) | inr e => inr e end.
+Proof. exact views_dict_config. Qed.
+
+(* for reversal-closed path names the keys of the full dictionary are closed under
+   reciprocal_viewname (which never raises on them) *)
+Theorem views_keys_closed_under_reciprocal : forall paths vs k,
+  (forall w, In w (map fst paths) -> In (rev w) (map fst paths)) ->
+  make_views_from_paths paths false = inl vs ->
+  In k (map fst (keyed vs)) ->
+  exists k', reciprocal_viewname_str k = inl k' /\ In k' (map fst (keyed vs)).
+Proof. exact views_keys_reciprocal. Qed.
+
+(* ---- the public make_views and the examination objects --------------- *)
+(* block_in_immersion.make_views: a BlockInImmersion with a couplant and a front wall
+   gives the views of the configuration Immersion(backwall is not None); a couplant
+   None is a ValueError (reflection_against must be defined), a front wall None a
+   TypeError; any object lacking one of the four attributes read (a BlockInContact, a
+   plain ExaminationObject) is rejected with ValueError BEFORE max_number_of_reflection
+   is looked at *)
+Theorem make_views_immersion_objects : forall couplant bw r uo,
+  make_views_imm_obj (block_in_immersion couplant true bw) r uo =
+    (if couplant then liftX (make_views (Immersion bw) r uo) else inr (XBase ErrValue)) /\
+  make_views_imm_obj (block_in_immersion couplant false bw) r uo = inr XType /\
+  (forall o, eo_couplant_material o = NoAttr \/ eo_block_material o = NoAttr \/
+             eo_frontwall o = NoAttr \/ eo_backwall o = NoAttr ->
+             make_views_imm_obj o r uo = inr (XBase ErrValue)).
+Proof.
+  intros couplant bw r uo. split; [exact (make_views_imm_block couplant bw r uo)|].
+  split; [exact (make_views_imm_no_frontwall couplant bw r uo)
+         | exact (fun o => make_views_imm_wrong_object o r uo)].
+Qed.
+
+(* block_in_contact.make_views: the four try/except blocks: block_material or, failing
+   that, material (else the AttributeError escapes); a missing frontwall / backwall /
+   under_material attribute counts as None *)
+Theorem make_views_contact_objects : forall o r uo,
+  ((eo_block_material o <> NoAttr \/ eo_material o <> NoAttr) ->
+   make_views_contact_obj o r uo =
+   liftX (make_views (Contact (attr_or_none (eo_frontwall o)) (attr_or_none (eo_backwall o))
+                              (attr_or_none (eo_under_material o))) r uo)) /\
+  (eo_block_material o = NoAttr -> eo_material o = NoAttr ->
+   make_views_contact_obj o r uo = inr XAttribute).
+Proof.
+  intros o r uo. split; [exact (make_views_contact_setup o r uo) | exact (make_views_contact_no_material o r uo)].
+Qed.
+
+(* end to end: whenever a public make_views returns, it returned the views of a
+   configuration, to which view_wiring_configs / view_counts / unique_dictionary apply *)
+Theorem make_views_objects_wired : forall o r uo views,
+  (make_views_imm_obj o r uo = inl views ->
+   exists bw, eo_backwall o = Attr bw /\ eo_frontwall o = Attr true /\
+              eo_couplant_material o = Attr true /\ make_views (Immersion bw) r uo = inl views) /\
+  (make_views_contact_obj o r uo = inl views ->
+   make_views (Contact (attr_or_none (eo_frontwall o)) (attr_or_none (eo_backwall o))
+                       (attr_or_none (eo_under_material o))) r uo = inl views).
+Proof.
+  intros o r uo views. split; [exact (make_views_imm_obj_wired o r uo views)
+                              | exact (make_views_contact_obj_wired o r uo views)].
+Qed.
+
+(* the interfaces dictionary of every configuration: documented keys in the documented
+   order, documented objects; in immersion the front wall is TWO Interface objects on
+   the same points - fluid_solid transmission (normals away from the incoming rays) and
+   solid_fluid reflection against the couplant (normals towards them) *)
+Theorem interfaces_dictionary_wired : forall s bw,
+  make_interfaces s = inl (spec_interfaces s) /\
+  ilookup KFrontTrans (spec_interfaces (Immersion bw)) = Some spec_front_trans /\
+  ilookup KFrontRefl (spec_interfaces (Immersion bw)) = Some (spec_wall (Immersion bw) 2) /\
+  i_points spec_front_trans = i_points (spec_wall (Immersion bw) 2) /\
+  i_tr spec_front_trans = Some Transmission /\ i_tr (spec_wall (Immersion bw) 2) = Some Reflection /\
+  i_kind spec_front_trans = Some FluidSolid /\ i_kind (spec_wall (Immersion bw) 2) = Some SolidFluid /\
+  i_inc spec_front_trans = Some false /\ i_inc (spec_wall (Immersion bw) 2) = Some true.
+Proof. intros s bw. split; [exact (interfaces_wired s) | exact (frontwall_two_objects bw)]. Qed.
+
+(* ---- any number of reflections -------------------------------------- *)
+(* the path names with up to r reflections, for EVERY r: exactly the non-empty L/T words
+   of at most r+1 letters, each once, closed under reversal, 2(2^(r+1) - 1) of them, in
+   the order shortest first then alphabetical (L, T, LL, LT, TL, TT, LLL, ...).
+   This discharges the premises NoDup / reversal-closed of viewnames_all_pairs,
+   viewnames_sorted, unique_classes and unique_views_count for the real name sets *)
+Theorem path_names_any_reflections : forall r,
+  (forall w, In w (spec_names r) <-> 1 <= length w <= r + 1) /\
+  NoDup (spec_names r) /\
+  (forall w, In w (spec_names r) -> In (rev w) (spec_names r)) /\
+  length (spec_names r) = num_paths r /\ num_paths r = 2 * (2 ^ (r + 1) - 1) /\
+  StronglySorted shortlex (spec_names r).
+Proof.
+  intros r. split; [exact (spec_names_In r)|]. split; [exact (spec_names_NoDup r)|].
+  split; [exact (spec_names_closed r)|]. split; [exact (spec_names_length r)|].
+  split; [exact (num_paths_alt r) | exact (spec_names_shortlex r)].
+Qed.
+
+(* make_interfaces + make_paths with the limit removed give, for EVERY
+   max_number_of_reflection, the documented paths of all the names (induction on the
+   names, not enumeration); up to 2 this is the code's make_paths, above 2 the code
+   raises NotImplementedError *)
+Theorem make_paths_any_reflections : forall s r,
+  make_paths_gen s r = spec_paths_gen s r /\
+  ((r <= 2)%Z -> make_paths_gen s r = make_paths s r) /\
+  ((2 < r)%Z -> make_paths s r = inr ErrNotImplemented).
+Proof.
+  intros s r. split; [exact (make_paths_gen_wired s r)|].
+  split; [exact (make_paths_gen_agrees s r) | exact (make_paths_limit s r)].
+Qed.
+
+(* it returns exactly when r >= 0 and the walls it needs are declared: the back wall
+   from one reflection on, the front wall of a contact block from two on *)
+Theorem make_paths_any_defined_iff : forall s r,
+  (exists paths, make_paths_gen s r = inl paths) <->
+  (0 <= r)%Z /\
+  match s with
+  | Immersion bw => (1 <= r)%Z -> bw = true
+  | Contact fw bw _ => ((1 <= r)%Z -> bw = true) /\ ((2 <= r)%Z -> fw = true)
+  end.
+Proof. exact make_paths_gen_defined. Qed.
+
+(* the documented path of ANY non-empty word w: one interface more than legs; probe
+   first, grid last, in immersion the front-wall transmission second and a couplant leg
+   of mode L first; the k-th wall crossing (k = 1 .. |w|-1) sits at position k (+1 in
+   immersion) and is the object spec_wall s k; the legs in the block carry the letters of
+   w in order, all in the block material; the name is w *)
+Theorem path_interfaces_any_word : forall s w, 1 <= length w ->
+  let p := spec_path s w in
+  length (p_interfaces p) = length w + 1 + iface_offset s /\
+  length (p_materials p) = length w + iface_offset s /\
+  length (p_modes p) = length w + iface_offset s /\
+  nth_error (p_interfaces p) 0 = Some spec_probe /\
+  nth_error (p_interfaces p) (length w + iface_offset s) = Some spec_grid /\
+  (iface_offset s = 1 -> nth_error (p_interfaces p) 1 = Some spec_front_trans) /\
+  (forall k, 1 <= k < length w -> nth_error (p_interfaces p) (k + iface_offset s) = Some (spec_wall s k)) /\
+  p_materials p = (match s with Immersion _ => [Couplant] | Contact _ _ _ => [] end) ++ repeat Block (length w) /\
+  p_modes p = block_prefix s ++ w /\ p_name p = w /\ p_rays p = None.
+Proof.
+  intros s w Hw. cbv zeta.
+  split; [exact (proj1 (spec_path_length s w Hw))|].
+  split; [exact (proj1 (proj2 (spec_path_length s w Hw)))|].
+  split; [exact (proj2 (proj2 (spec_path_length s w Hw)))|].
+  split; [exact (proj1 (spec_path_ends s w Hw))|].
+  split; [exact (proj1 (proj2 (spec_path_ends s w Hw)))|].
+  split; [exact (proj2 (proj2 (spec_path_ends s w Hw)))|].
+  split; [exact (fun k Hk => spec_path_wall s w k Hk) | exact (spec_path_materials s w)].
+Qed.
+
+(* what the k-th wall crossing is, for every k >= 1: back wall for odd k, front wall for
+   even k; the normals (all pointing down) face both the incoming and the outgoing rays at
+   the front wall and neither at the back wall; immersion: solid_fluid reflection against
+   the couplant; contact: solid_fluid reflection against the under-material at the back
+   wall when there is one, otherwise no kind / flag at all; and the object depends on the
+   parity of k only (the two Interface objects backwall_refl / frontwall_refl are reused) *)
+Theorem wall_crossing_meaning : forall s k, 1 <= k ->
+  i_points (spec_wall s k) = (if Nat.odd k then PBack else PFront) /\
+  i_inc (spec_wall s k) = Some (Nat.even k) /\ i_out (spec_wall s k) = Some (Nat.even k) /\
+  (i_kind (spec_wall s k), i_tr (spec_wall s k), i_against (spec_wall s k)) =
+    match s with
+    | Immersion _ => (Some SolidFluid, Some Reflection, Some Couplant)
+    | Contact _ _ um => if Nat.odd k && um then (Some SolidFluid, Some Reflection, Some Under)
+                        else (None, None, None)
+    end /\
+  spec_wall s k = spec_wall s (if Nat.odd k then 1 else 2).
+Proof.
+  intros s k Hk. destruct (spec_wall_meaning s k Hk) as (H1 & H2 & H3 & H4).
+  split; [exact H1|]. split; [exact H2|]. split; [exact H3|]. split; [exact H4 | exact (spec_wall_parity s k Hk)].
+Qed.
+
+(* Path.reverse of the documented path of ANY non-empty word is, explicitly, the path
+   travelled backwards (spec_path_reversed: grid first, the same wall objects in the
+   opposite order - Interface.reverse leaves a wall reflection unchanged -, the front wall
+   as a solid_fluid transmission with swapped normal sides, probe last; legs and materials
+   reversed; same name), and reversing that gives the path back *)
+Theorem path_reverse_any_word : forall s w, 1 <= length w ->
+  path_reverse (spec_path s w) = inl (spec_path_reversed s w) /\
+  path_reverse (spec_path_reversed s w) = inl (spec_path s w) /\
+  (forall k, 1 <= k -> iface_reverse (spec_wall s k) = inl (spec_wall s k)).
+Proof.
+  intros s w Hw. split; [exact (spec_path_reverse_explicit s w Hw)|].
+  split; [exact (spec_path_reverse_twice s w Hw) | exact (fun k Hk => spec_wall_reverse_fixed s k Hk)].
+Qed.
+
+(* the views for any number of reflections: names, wiring and scattering key exactly as
+   in view_wiring_configs; defined as soon as the paths are; equal to the code's make_views
+   up to 2 reflections *)
+Theorem view_wiring_any_reflections : forall s r uo,
+  (forall views, make_views_gen s r uo = inl views ->
+    (0 <= r)%Z /\
+    map fst views = make_viewnames (spec_names (Z.to_nat r)) uo /\
+    forall X Y v, In ((X, Y), v) views ->
+      In X (spec_names (Z.to_nat r)) /\ In Y (spec_names (Z.to_nat r)) /\
+      v_name v = (X, Y) /\
+      v_tx v = spec_path s X /\ v_rx v = spec_path s (rev Y) /\
+      p_modes (v_tx v) = block_prefix s ++ X /\ p_modes (v_rx v) = block_prefix s ++ rev Y /\
+      scat_key v = Some (last X L, hd L Y)) /\
+  (forall paths, make_paths_gen s r = inl paths -> exists views, make_views_gen s r uo = inl views) /\
+  ((r <= 2)%Z -> make_views_gen s r uo = make_views s r uo).
+Proof.
+  intros s r uo. split; [exact (fun views => view_wiring_gen s r uo views)|].
+  split; [exact (fun paths => make_views_gen_defined s r uo paths) | exact (make_views_gen_agrees s r uo)].
+Qed.
+
+(* how many views: with n = 2(2^(r+1) - 1) paths, n^2 views, n(n+1)/2 unique ones - for the
+   code's make_views (r in 0..2: 4/3, 36/21, 196/105) and for any r with the general rule *)
+Theorem view_counts : forall s r uo views,
+  let n := num_paths (Z.to_nat r) in
+  (make_views s r uo = inl views ->
+     if uo then 2 * length views = n * (n + 1) else length views = n * n) /\
+  (make_views_gen s r uo = inl views ->
+     if uo then 2 * length views = n * (n + 1) else length views = n * n).
+Proof.
+  intros s r uo views. cbv zeta.
+  split; [exact (views_count_config s r uo views) | exact (views_count_gen s r uo views)].
+Qed.
+
+(* which view of each reciprocity class is kept, in closed form: for duplicate-free,
+   reversal-closed path names, X-Y is in the unique list iff it is in the full list and
+   its reciprocal does not come before it in the documented order, i.e. iff the transmit
+   path has more legs than the receive path, or as many and X is not after reversed(Y)
+   alphabetically *)
+Theorem unique_views_closed_form : forall names tx rx, NoDup names ->
+  (forall w, In w names -> In (rev w) names) ->
+  (In (tx, rx) (make_viewnames names true) <->
+   In (tx, rx) (make_viewnames names false) /\ ~ doc_lt (recip (tx, rx)) (tx, rx)) /\
+  (~ doc_lt (recip (tx, rx)) (tx, rx) <->
+   length rx < length tx \/ (length rx = length tx /\ ~ word_lt (rev rx) tx)).
+Proof.
+  intros names tx rx HN Hc. split; [exact (unique_kept_iff names (tx, rx) HN Hc) | exact (kept_explicit tx rx)].
+Qed.
+
+(* tfm_unique_only=True returns a SUB-dictionary of tfm_unique_only=False: same View
+   objects (same tx/rx paths), same relative order, exactly the kept names; whenever the
+   full dictionary is built the unique one is too *)
+Theorem unique_dictionary_is_subdictionary : forall paths va, NoDup (map fst paths) ->
+  (forall w, In w (map fst paths) -> In (rev w) (map fst paths)) ->
+  make_views_from_paths paths false = inl va ->
+  exists vu, make_views_from_paths paths true = inl vu /\ subseq vu va /\
+    forall n v, In (n, v) vu <-> In (n, v) va /\ ~ doc_lt (recip n) n.
+Proof. exact unique_subdict. Qed.
+
+Theorem unique_dictionary_configs : forall s r va,
+  (make_views s r false = inl va ->
+   exists vu, make_views s r true = inl vu /\ subseq vu va /\
+     forall n v, In (n, v) vu <-> In (n, v) va /\ ~ doc_lt (recip n) n) /\
+  (make_views_gen s r false = inl va ->
+   exists vu, make_views_gen s r true = inl vu /\ subseq vu va /\
+     forall n v, In (n, v) vu <-> In (n, v) va /\ ~ doc_lt (recip n) n).
+Proof.
+  intros s r va. split; [exact (unique_subdict_config s r va) | exact (unique_subdict_gen s r va)].
+Qed.
+
+(* ---- non-vacuity of the second part ----------------------------------- *)
+Module StringExamples.
+  Import Coq.Strings.String.
+  Local Open Scope string_scope.
+  Definition s (x : string) : pystr := list_ascii_of_string x.
+
+  (* the docstring example of reciprocal_viewname, and the two ways it raises *)
+  Example reciprocal_docstring :
+    reciprocal_viewname_str (s "L-LT") = inl (s "TL-L") /\
+    reciprocal_viewname_str (s "LL") = inr ErrValue /\
+    reciprocal_viewname_str (s "L-T-L") = inr ErrValue /\
+    reciprocal_viewname_str (s "") = inr ErrValue /\
+    reciprocal_viewname_str (s "ab-") = inl (s "-ba") /\
+    count_dash (s "L-LT") = 1 /\ count_dash (s "L-T-L") = 2.
+  Proof. vm_compute. repeat split; reflexivity. Qed.
+
+  Example names_and_keys :
+    word_str [L; T; L] = s "LTL" /\ view_str ([L; L; T], [L; T]) = s "LLT-LT" /\
+    parse_word (s "LTL") = inl [L; T; L] /\ parse_word (s "LXL") = inr ErrValue /\
+    split_dash (s "LLT-LT") = [s "LLT"; s "LT"] /\ split_dash (s "a--b") = [s "a"; s ""; s "b"].
+  Proof. vm_compute. repeat split; reflexivity. Qed.
+
+  (* Python: ("T", "L") sorts after ("L", "T"); "LL-L" (3 legs) after "T-T" (2 legs);
+     upper case before lower case, a proper prefix first *)
+  Example key_comparisons :
+    sview_cmp (s "T", s "L") (s "L", s "T") = Gt /\ sview_cmp (s "T", s "T") (s "LL", s "L") = Lt /\
+    sview_cmp (s "L", s "LL") (s "LL", s "L") = Gt /\
+    str_cmp (s "T") (s "a") = Lt /\ str_cmp (s "LT") (s "LTL") = Lt.
+  Proof. vm_compute. repeat split; reflexivity. Qed.
+
+  (* an assignment to an existing key keeps its place; NoDup is needed in
+     views_dict_no_collision: the same name twice gives one entry, not four *)
+  Example dictionary_overwrite :
+    od_set (s "b") 5 (od_set (s "a") 3 (od_set (s "b") 2 (od_set (s "a") 1 []))) = [(s "a", 3); (s "b", 5)] /\
+    (exists paths p, make_paths (Contact false false false) 0 = inl paths /\ plookup [L] paths = Some p /\
+       match make_views_from_paths_dict [([L], p); ([L], p)] false, make_views_from_paths [([L], p); ([L], p)] false with
+       | inl d, inl vs => List.length d = 1 /\ List.length vs = 4
+       | _, _ => False
+       end).
+  Proof.
+    split; [vm_compute; reflexivity|]. eexists. eexists. split; [vm_compute; reflexivity|].
+    split; vm_compute; auto.
+  Qed.
+
+  (* the 21 keys of the unique views of the default immersion model are IMAGING_MODES *)
+  Example keys_21 :
+    exists paths d, make_paths (Immersion true) 1 = inl paths /\
+      make_views_from_paths_dict paths true = inl d /\
+      map fst d = map s ["L-L"; "L-T"; "T-T"; "LL-L"; "LL-T"; "LT-L"; "LT-T"; "TL-L"; "TL-T"; "TT-L"; "TT-T";
+                         "LL-LL"; "LL-LT"; "LL-TL"; "LL-TT"; "LT-LT"; "LT-TL"; "LT-TT"; "TL-LT"; "TL-TT"; "TT-TT"].
+  Proof. eexists. eexists. split; [vm_compute; reflexivity|]. split; vm_compute; reflexivity. Qed.
+End StringExamples.
+
+(* the objects: a contact block given to the immersion model is rejected whatever r is
+   (even r = 7, which alone would be NotImplementedError); an immersion block given to the
+   contact model is read as a contact block with both walls and no under-material; a plain
+   ExaminationObject has no wall at all *)
+Example objects :
+  make_views_imm_obj (block_in_contact true true true) 7 false = inr (XBase ErrValue) /\
+  make_views_imm_obj examination_object 0 false = inr (XBase ErrValue) /\
+  make_views_imm_obj (block_in_immersion true true true) 7 false = inr (XBase ErrNotImplemented) /\
+  make_views_imm_obj (block_in_immersion true true false) 1 true = inr (XBase ErrKey) /\
+  make_views_imm_obj (block_in_immersion false true true) 0 true = inr (XBase ErrValue) /\
+  make_views_contact_obj (block_in_immersion true true true) 2 true
+    = liftX (make_views (Contact true true false) 2 true) /\
+  make_views_contact_obj examination_object 1 false = inr (XBase ErrValue) /\
+  make_views_contact_obj (mkExam NoAttr NoAttr NoAttr NoAttr NoAttr NoAttr) 0 false = inr XAttribute /\
+  (exists views, make_views_contact_obj examination_object 0 true = inl views /\ length views = 3) /\
+  (exists views, make_views_imm_obj (block_in_immersion true true true) 1 true = inl views /\ length views = 21).
+Proof.
+  repeat (split; [vm_compute; reflexivity|]).
+  split; eexists; (split; [vm_compute; reflexivity|]); vm_compute; reflexivity.
+Qed.
+
+(* three reflections (beyond the code's limit): 30 paths, 900 views, 465 unique; LTLT *)
+Example three_reflections :
+  num_paths 0 = 2 /\ num_paths 1 = 6 /\ num_paths 2 = 14 /\ num_paths 3 = 30 /\
+  make_paths (Immersion true) 3 = inr ErrNotImplemented /\
+  (exists paths, make_paths_gen (Immersion true) 3 = inl paths /\ length paths = 30 /\
+     plookup [L; T; L; T] paths = Some (mkPath
+       [ mkIface PProbe None None None None (Some true);
+         mkIface PFront (Some FluidSolid) (Some Transmission) None (Some false) (Some true);
+         mkIface PBack (Some SolidFluid) (Some Reflection) (Some Couplant) (Some false) (Some false);
+         mkIface PFront (Some SolidFluid) (Some Reflection) (Some Couplant) (Some true) (Some true);
+         mkIface PBack (Some SolidFluid) (Some Reflection) (Some Couplant) (Some false) (Some false);
+         mkIface PGrid None None None (Some true) None ]
+       [Couplant; Block; Block; Block; Block] [L; L; T; L; T] [L; T; L; T] None)) /\
+  (exists va vu, make_views_gen (Contact true true true) 3 false = inl va /\
+     make_views_gen (Contact true true true) 3 true = inl vu /\ length va = 900 /\ length vu = 465) /\
+  make_paths_gen (Contact false true true) 3 = inr ErrValue /\
+  make_paths_gen (Immersion false) 3 = inr ErrKey /\ make_paths_gen (Immersion true) (-1) = inr ErrValue.
+Proof.
+  repeat (split; [vm_compute; reflexivity|]).
+  split; [eexists; split; [vm_compute; reflexivity|]; split; vm_compute; reflexivity|].
+  split; [eexists; eexists; split; [vm_compute; reflexivity|]; split; [vm_compute; reflexivity|];
+          split; vm_compute; reflexivity|].
+  repeat split; vm_compute; reflexivity.
+Qed.
+
+(* the premises of make_paths_any_defined_iff / path_interfaces_any_word are satisfiable,
+   and the closed form of the unique filter on IMAGING_MODES-like names *)
+Example kept_examples :
+  (~ doc_lt (recip ([L; L], [T])) ([L; L], [T])) /\ doc_lt (recip ([T], [L; L])) ([T], [L; L]) /\
+  (~ doc_lt (recip ([L], [T])) ([L], [T])) /\ doc_lt (recip ([T], [L])) ([T], [L]) /\
+  (~ doc_lt (recip ([L; T], [L; T])) ([L; T], [L; T])) /\
+  In ([L; L], [T]) (make_viewnames (spec_names 1) true) /\ ~ In ([T], [L; L]) (make_viewnames (spec_names 1) true).
+Proof.
+  assert (K : forall a b, view_cmp a b = Lt <-> doc_lt a b) by exact view_cmp_doc.
+  repeat split; try (apply K; vm_compute; reflexivity);
+    try (intros H; apply K in H; vm_compute in H; discriminate).
+  - vm_compute. repeat (first [left; reflexivity | right]).
+  - intros H. vm_compute in H. repeat (destruct H as [H|H]; [discriminate|]). exact H.
+Qed.
+
+(* the explicit reversed path agrees with reverse_immersion_LT above *)
+Example reversed_LT :
+  spec_path_reversed (Immersion true) [L; T] = mkPath
+    [ mkIface PGrid None None None None (Some true);
+      mkIface PBack (Some SolidFluid) (Some Reflection) (Some Couplant) (Some false) (Some false);
+      mkIface PFront (Some SolidFluid) (Some Transmission) None (Some true) (Some false);
+      mkIface PProbe None None None (Some true) None ]
+    [Block; Block; Couplant] [T; L; L] [L; T] None.
+Proof. vm_compute. reflexivity. Qed.
